@@ -9,13 +9,13 @@ SETUP_THOROUGH_VARIANTS = {'dbg', 'rel', 'miri', 'mirirel', 'asan', 'vg', 'dbg-s
 COST = {'miri': 100, 'mirirel': 100, 'miri-serde': 100, 'vg': 20, 'vg-dbg': 30, 'asan': 4}
 
 
-def J(prop, label, variant, binname, args, shards, budget, timeout=1500, light=False, covp='', lsan=False):
+def J(prop, label, variant, binname, args, shards, budget, timeout=1500, light=False, covp='', lsan=False, exh=False):
     if isinstance(args, str):
         args = args.split()
     if light and '--light' not in args:
         args = args + ['--light']
     return dict(prop=prop, label=label, variant=variant, bin=binname, args=['--prop', prop] + args, shards=shards,
-                budget=budget, timeout=timeout, light=light, covp=covp, cost=COST.get(variant, 1), lsan=lsan)
+                budget=budget, timeout=timeout, light=light, covp=covp, cost=COST.get(variant, 1), lsan=lsan, exh=exh)
 
 
 def q(tier, quick, thorough):
@@ -216,6 +216,44 @@ plan('C19', jobs=lambda t: _simple_hist('C19', t, fam='track,copy,raw', miri=(15
      level_text='Exploration: Debug (plain and alternate) and Display of Map/Set and the Debug of every iterator/drain kind after every consumption prefix are compared with independently built expectations on states reached by random histories; Miri watches the iterators that re-interpret raw slots.',
      level_note='For iterator Debug only the multiset of listed entries is compared (order and bracket style are not part of the property).',
      design_ref='DESIGN.md section 3, C19')
+
+
+def _c04(tier):
+    jobs = [
+        J('C04', 'dbg/exhaustive', 'dbg', 'eng_panic', '--fam track --space 0,1,2,3,4', 8, 1, exh=True),
+        J('C04', 'rel/exhaustive', 'rel', 'eng_panic', '--fam track --space 0,1,2,3,4', 8, 1, exh=True),
+        J('C04', 'rel/random-big', 'rel', 'eng_panic', '--fam track --space 0 --big %d' % q(tier, 60_000, 3_000_000), 8, 1),
+        J('C04', 'dbg/heap', 'dbg', 'eng_panic', '--fam heap --space 0,1,2,3', 4, 1),
+    ]
+    if tier == 'quick':
+        jobs.append(J('C04', 'miri/N<=2', 'miri', 'eng_panic', '--fam track --space 0,1,2 --stride 3', 16, 1, light=True))
+    else:
+        jobs += [
+            J('C04', 'miri/N<=3', 'miri', 'eng_panic', '--fam track --space 0,1,2,3', 16, 1, light=True, timeout=7200, exh=True),
+            J('C04', 'miri/heap', 'miri', 'eng_panic', '--fam heap --space 0,1,2', 12, 1, light=True, timeout=7200),
+            J('C04', 'asan/heap', 'asan', 'eng_panic', '--fam heap --space 0,1,2,3,4 --big 400000', 8, 1),
+            J('C04', 'vg/heap', 'vg', 'eng_panic', '--fam heap --space 0,1,2,3', 12, 1, light=True, timeout=7200),
+            J('C04', 'dbg-std/exhaustive', 'dbg-std', 'eng_panic', '--fam track --space 0,1,2,3,4', 4, 1),
+        ]
+    return jobs
+
+
+plan('C04', jobs=_c04, level='fault_enumeration',
+     rule='A case is (container state, operation, argument choice): states are ALL ordered arrangements of all subsets of a 4-class key universe that fit into N for N in 0..=4 (1, 5, 17, 41, 65 slot layouts), operations are 44 Map and 30 Set operations that can call user code, arguments are the key stored first / in the middle / last and an absent key (set-algebra operations additionally range over four second operands). Every case is first run unfaulted to count its user-callback ticks n, then re-run n times with a single-shot panic injected at tick k = 1..n (K::eq, Q::eq, Borrow, K::clone, V::clone, K::drop, V::drop, V::default, V::eq, closures, source-iterator next, fmt); after each unwinding every container involved is validated, exercised and dropped under the ownership ledger. One evaluation = one such run; a faulted run is non-trivial and distinct by (state, operation, argument, k). Random larger states (N = 8, 16) are added on top.',
+     required=['fault:clone:K::clone', 'fault:clone:V::clone', 'fault:clear:V::drop', 'fault:retain(some):K::drop', 'fault:retain(some):closure',
+               'fault:insert:K::eq', 'fault:from_iter:source.next', 'fault:set.sub:K::clone', 'fault:set.extend:source.next', 'fault:entry.or_insert_with:closure',
+               'fault:remove(q):Q::eq', 'fault:remove(q):borrow', 'fault:eq(equal):V::eq', 'fault:fmt.debug:fmt', 'fault:drop(map):K::drop',
+               'fault:into_iter.take1.drop:V::drop', 'fault:drain.take1.drop:K::drop', 'fault:entry.or_default:V::default', 'fault:set.retain(some):K::drop',
+               'random-big:map', 'random-big:set'],
+     floors={'faults_fired': 1000},
+     exhaustive_subspace='all 129 slot layouts over a 4-class universe for N in 0..=4 x 74 operations x up to 4 key choices x every callback tick (dbg and rel); Miri: the N <= 2 part sampled 1-in-3 by seed in the quick tier, the complete N <= 3 part in the thorough tier',
+     assumptions=NATIVE_ASSUME + SAN_ASSUME + ['exactly one panic is injected per run; panics in Drop are injected only when the thread is not already unwinding (a double panic aborts by language rules)',
+                  'leaks after a user panic are tolerated by the property and only counted'],
+     title='panic safety (fault enumeration)',
+     technique='runtime monitoring with fault injection: single-shot panic enumerated over every user-callback tick of every operation on an exhaustive small-state space, ownership ledger + well-formedness/usability monitor on every survivor, Miri/ASan/valgrind on the same driver',
+     level_text='Fault enumeration: for every (state, operation, argument) of the exhaustive small-scope space the callback trace is recorded and a panic is injected at every position of it, one per run; the ledger listens during unwinding and during the validation, exercise and drop of every surviving container, including partially built clones/collections. Quick runs the whole space in dbg and rel (about 10^5 faulted runs each), heap-owning elements natively, random N=8/16 states, and a seed-chosen third of the N<=2 space under Miri; thorough adds the full N<=3 space under Miri, heap elements under Miri/ASan/valgrind and the std feature.',
+     level_note='Trusted: fault driver (deterministic tick counting), ledger, instrumented elements. States beyond 4 classes / N > 4 are sampled, not enumerated. A run in which an armed fault does not fire counts as inconclusive.',
+     design_ref='DESIGN.md section 3, C04')
 
 
 def claimed():
